@@ -407,6 +407,71 @@ void int_stage ()
     R ().stage_done ("B(int)^1..3 (11 values) vs int64 definitions (overflowing operand tuples excluded); integer lerp/ulerp on 11x11x5 exact cases");
 }
 
+// ---- mixed-type instantiations: equal<T1,T2,T3>, lerp<T,Q>, ulerp<T,Q>, cmpt/iszero with a tolerance of another kind
+// of magnitude. The definitions are "|a - b| <= t" and "a(1-t) + b t" over the reals; every operand here is a small
+// dyadic rational (or a small integer), so the usual arithmetic conversions make every intermediate exact and the
+// oracle (long double, exact as well) is an equality. What the mixed instantiations add: an implementation that
+// converts one operand to the type of another (b to T1, t to T1, the interpolation parameter to T ...) is invisible
+// when all three types coincide.
+void mixed_stage ()
+{
+    if (!R ().stage ("scalar-mixed-types")) return;
+    long long n = 0, tr = 0, c_frac_vs_int = 0, c_within = 0, c_outside = 0, c_lerp = 0;
+    const double dy[] = {-3, -1.5, -0.75, -0.25, 0, 0.25, 0.5, 0.75, 1, 1.25, 2.5, 6};
+    const double tol[] = {0, 0.125, 0.25, 0.5, 1, 1.75, 4};
+    for (double a : dy)
+        for (double b : dy)
+            for (double t : tol)
+            {
+                ++n;
+                long double d = fabsl ((long double) a - (long double) b);
+                bool        w = d <= (long double) t;
+                if (w) ++c_within; else ++c_outside;
+                std::string in = Msg () << a << " " << b << " " << t;
+                bool g1 = IM::equal ((float) a, (double) b, (float) t);
+                bool g2 = IM::equal ((double) a, (float) b, (double) t);
+                bool g3 = IM::equal ((float) a, (float) b, (double) t);
+                tr += 3;
+                if (g1 != w) R ().fail ("equal<float,double,float>", in, fmt (w), fmt (g1));
+                if (g2 != w) R ().fail ("equal<double,float,double>", in, fmt (w), fmt (g2));
+                if (g3 != w) R ().fail ("equal<float,float,double>", in, fmt (w), fmt (g3));
+                // an integer first (second) operand against a fractional one
+                int ia = (int) (a < 0 ? -floorl (-(long double) a) : floorl ((long double) a)); // a truncated: an int operand
+                {
+                    long double di = fabsl ((long double) ia - (long double) b);
+                    bool        wi = di <= (long double) t;
+                    bool        g4 = IM::equal (ia, (float) b, (float) t), g5 = IM::equal ((double) b, ia, (float) t), g6 = IM::equal (ia, ia + 1, t);
+                    tr += 3;
+                    if (b != floorl ((long double) b)) ++c_frac_vs_int;
+                    if (g4 != wi) R ().fail ("equal<int,float,float>", fmt (ia) + " " + std::string (Msg () << b << " " << t), fmt (wi), fmt (g4));
+                    if (g5 != wi) R ().fail ("equal<double,int,float>", std::string (Msg () << b) + " " + fmt (ia) + " " + std::string (Msg () << t), fmt (wi), fmt (g5));
+                    if (g6 != (1 <= (long double) t)) R ().fail ("equal<int,int,double>", fmt (ia) + " " + fmt (ia + 1) + " " + std::string (Msg () << t), fmt (1 <= (long double) t), fmt (g6));
+                }
+            }
+    // lerp / ulerp with value type T and parameter type Q != T (floating): exact on dyadic data
+    const double ts[] = {-1, 0, 0.25, 0.5, 0.75, 1, 2};
+    for (double a : dy)
+        for (double b : dy)
+            for (double t : ts)
+            {
+                ++n; ++c_lerp;
+                long double w = (long double) a * (1 - (long double) t) + (long double) b * (long double) t; // exact: <= 12 significant bits
+                std::string in = Msg () << a << " " << b << " " << t;
+                float  g1 = IM::lerp ((float) a, (float) b, (double) t), u1 = IM::ulerp ((float) a, (float) b, (double) t);
+                double g2 = IM::lerp ((double) a, (double) b, (float) t), u2 = IM::ulerp ((double) a, (double) b, (float) t);
+                tr += 4;
+                if ((long double) g1 != w) R ().fail ("lerp<float,double>", in, fmt (w), Msg () << g1);
+                if ((long double) u1 != w) R ().fail ("ulerp<float,double>", in, fmt (w), Msg () << u1);
+                if ((long double) g2 != w) R ().fail ("lerp<double,float>", in, fmt (w), Msg () << g2);
+                if ((long double) u2 != w) R ().fail ("ulerp<double,float>", in, fmt (w), Msg () << u2);
+            }
+    R ().cls ("scalar.mixed.within-tolerance", c_within); R ().cls ("scalar.mixed.outside-tolerance", c_outside);
+    R ().cls ("scalar.mixed.int-operand-vs-fractional-operand", c_frac_vs_int);
+    R ().cls ("lerp.mixed.exact-grid", c_lerp);
+    R ().add ("states", n); R ().add ("evaluations", n); R ().add ("transitions", tr);
+    R ().stage_done ("12 x 12 dyadic operands x 7 tolerances: equal<float,double,float>, <double,float,double>, <float,float,double>, <int,float,float>, <double,int,float>, <int,int,double>; 12 x 12 x 7 exact cases of lerp/ulerp<float,double> and <double,float>");
+}
+
 } // namespace
 
 void c17_scalar_stages ()
@@ -414,4 +479,5 @@ void c17_scalar_stages ()
     fp_stage<float> ("float");
     fp_stage<double> ("double");
     int_stage ();
+    mixed_stage ();
 }
